@@ -27,6 +27,7 @@ func c06Ops(s []int) []ref.Op {
 
 func checkC06(c *core.Ctx) {
 	sameOperandSequence(c, "sameoperand", [][]int{{3}, {2, 3}, {3, 2, 2}, {2, 1, 3}, {4, 5}}, c06Ops, true)
+	composeCases(c, "compose", composeShapes, consumersMove, true)
 	shapes := enum.ShapeSet(c.Thorough())
 	for _, s := range shapes {
 		if c.Expired() {
